@@ -139,7 +139,13 @@ class Walker:
         if "closure" in o:
             return ("fnitem", o["closure"], (), None)
         if "param" in o:
-            return ("cparam", o["param"])
+            m = getattr(self, "gen_map", {}).get(o["param"], o["param"])
+            # (a helper walked in its caller's context sees the caller's generic arguments)
+            if m in ("true", "false"):
+                return ("const", m == "true", "bool")
+            if isinstance(m, str) and m.isdigit():
+                return ("const", int(m), o.get("ty", "usize"))
+            return ("cparam", m)
         if "value" in o:
             if "uneval" in o:
                 # evaluated named constant: keep its identity as a 4th component
@@ -418,6 +424,8 @@ class Walker:
                     ft = self.resolve_locals(st, fterm)
                     while isinstance(ft, tuple) and ft and ft[0] == "coerce":
                         ft = ft[1]
+                    if isinstance(ft, tuple) and ft and ft[0] == "fnitem" and self.is_closure_path(ft[1]):
+                        ft = ("agg", "closure", ft[1], None, (), ())
                     if isinstance(ft, tuple) and ft and ft[0] == "fnitem":
                         # a call through a function pointer whose value is a known function item is a call of that function
                         fname = resolved = ft[1]
@@ -428,6 +436,14 @@ class Walker:
                         args = (("ref", ft), ("tuple", args))
                 else:
                     fterm = None
+                if fname in CLOSURE_CALLS and len(args) == 2 and isinstance(args[1], tuple) and args[1] and args[1][0] == "tuple":
+                    v = self.callable_value(st, args[0])
+                    if isinstance(v, tuple) and v and v[0] == "fnitem" and not self.is_closure_path(v[1]):
+                        # calling a function item through the Fn* traits is calling the function
+                        fname = resolved = v[1]
+                        fn_args = tuple(v[2]) if len(v) > 2 and v[2] else ()
+                        args = tuple(args[1][1])
+                self._cur_fn_args = fn_args
                 dest = t["dest"]
                 forks = None
                 if fname == TRANSPARENT_TRY and len(args) == 1:
@@ -565,13 +581,8 @@ class Walker:
             return (t[0], self.resolve_locals(st, t[1], depth + 1)) + t[2:]
         return t
 
-    def closure_target(self, st, fname, args):
-        """(closure body, arguments) when this is a call of a closure whose value is known on the path (the closure was built in
-        a caller that is being walked in context): Fn*/call* with a receiver that evaluates to a closure aggregate"""
-        facts = getattr(self, "facts", None)
-        if facts is None or fname not in CLOSURE_CALLS or len(args) != 2:
-            return None
-        v = self.resolve_locals(st, args[0])
+    def callable_value(self, st, a):
+        v = self.resolve_locals(st, a)
         for _ in range(6):
             if isinstance(v, tuple) and v and v[0] in ("ref", "deref", "coerce"):
                 v = v[1]
@@ -579,6 +590,22 @@ class Walker:
                 v = st["mem"][v]
             else:
                 break
+        return v
+
+    def is_closure_path(self, nm):
+        facts = getattr(self, "facts", None)
+        bl = facts.by_path.get(nm, []) if facts is not None else []
+        return len(bl) == 1 and bl[0]["kind"] == "Closure"
+
+    def closure_target(self, st, fname, args):
+        """(closure body, arguments) when this is a call of a closure whose value is known on the path (the closure was built in
+        a caller that is being walked in context): Fn*/call* with a receiver that evaluates to a closure aggregate"""
+        facts = getattr(self, "facts", None)
+        if facts is None or fname not in CLOSURE_CALLS or len(args) != 2:
+            return None
+        v = self.callable_value(st, args[0])
+        if isinstance(v, tuple) and v and v[0] == "fnitem" and self.is_closure_path(v[1]):
+            v = ("agg", "closure", v[1], None, (), ())          # a closure constant: no captures
         if not (isinstance(v, tuple) and v and v[0] == "agg" and v[1] == "closure"):
             return None
         bl = facts.by_path.get(v[2], [])
@@ -833,6 +860,7 @@ class InlineWalker(Walker):
     def inline_call(self, st, callee, args):
         w = InlineWalker(callee, self.facts, self.pred, depth=self.depth + 1, max_paths=self.max_paths, unroll=self.unroll)
         w.root = self.root
+        w.gen_map = generic_map(self, callee)
         s2 = self.fork(st)
         caller_env, caller_visits, caller_blocks = s2["env"], s2["visits"], s2["blocks"]
         # locals of the caller whose address is handed to the callee: their current values travel in `mem`
@@ -865,6 +893,16 @@ class InlineWalker(Walker):
             else:
                 self.paths.append(p)
         return forks
+
+
+def generic_map(caller, callee):
+    """generic parameter of the callee -> the caller's argument for it at the call being walked"""
+    fa = getattr(caller, "_cur_fn_args", ()) or ()
+    gens = (callee.get("generics") if isinstance(callee, dict) else None) or []
+    cm = getattr(caller, "gen_map", {})
+    if len(gens) != len(fa):
+        return dict(cm) if callee.get("kind") == "Closure" else {}
+    return {g: cm.get(a, a) for g, a in zip(gens, fa)}
 
 
 def walk_inline(body, facts, **kw):
